@@ -487,7 +487,7 @@ def run(ctx):
     element_states(ctx, lentil)
     ctx.rule = ('sessions of 30 [40] random public calls on a shared pool (18 caller-owned objects); every event is judged by TLC; '
                 'a case = one call key (callable, parameters, argument contents); plus plane histories generated by TLC from '
-                'PlaneHist.tla (all of length <= 4, random of length 8) replayed on a real Pupil')
+                'PlaneHist.tla (all of length <= 3, random of length 8; planes, a tilt element and held wavefronts) replayed on a real Pupil')
     ctx.assumptions += ['content digests (blake2b over dtype/shape/bytes, object attributes) identify object state',
                         'the pool plane P1 is built on the caller-owned array O1 (no copy): documented in-place targets are the plane objects, never the arrays they were built from']
 
